@@ -1,4 +1,5 @@
 import Varint.Bridge.RLEDec
+import Varint.Bridge.FORDec
 import Varint.Lemmas.Adaptive
 import Varint.Lemmas.BP128
 import Varint.Lemmas.Dict
@@ -179,5 +180,27 @@ theorem elias_trace_lt_cap (bytes : List Nat) (srcBits cap : Nat) (vs : List Nat
     (Elias.decGamma bytes srcBits cap = some vs → vs.length ≤ cap) ∧
     (Elias.decDelta bytes srcBits cap = some vs → vs.length ≤ cap) :=
   Varint.Props.C14.elias_out_le_cap bytes srcBits cap vs
+
+
+/-- **`varintFORDecode` on the translated C never writes beyond the caller's capacity**: for ANY byte buffer whose
+    header the model can read and any capacity, either the declared count exceeds the capacity and the C returns 0 without
+    a single store, or it stores exactly values[0 … n-1] with n = the declared count ≤ maxCount — every store index is below
+    maxCount -/
+theorem c_for_decode_bounded (bs : List Nat) (hb : ∀ b ∈ bs, b < 256) (cap fuel : Nat) (h : FOR.Hdr)
+    (hh : FOR.readHdr bs = some h) (hf : h.count < fuel) :
+    (FOR.dec bs cap = some none → Varint.Gen.C.forDecode fuel (Varint.Bridge.Tagged.bufOf bs) cap = some (0, [])) ∧
+    (∀ vs, FOR.dec bs cap = some (some vs) →
+      ∃ st, Varint.Gen.C.forDecode fuel (Varint.Bridge.Tagged.bufOf bs) cap = some (vs.length, st) ∧
+        st = Varint.Bridge.storesFrom 0 vs ∧ ∀ p ∈ st, p.1 < cap) := by
+  obtain ⟨h1, h2⟩ := Varint.Bridge.FORDec.forDecode_eq bs hb cap fuel h hh hf
+  refine ⟨h1, ?_⟩
+  intro vs hd
+  obtain ⟨e, _, hle⟩ := h2 vs hd
+  refine ⟨_, e, rfl, ?_⟩
+  intro p hp
+  have hfst : p.1 ∈ (Varint.Bridge.storesFrom 0 vs).map Prod.fst := List.mem_map_of_mem hp
+  rw [Varint.Bridge.storesFrom_fst] at hfst
+  have := List.mem_range'_1.mp hfst
+  omega
 
 end Varint.Props.C13
